@@ -299,12 +299,10 @@ def eval_signal(full):
         run_full = copy.deepcopy(full)
         run_full["scenario"]["events"]["schedule_from_csv"]["csv_file"] = tmp_csv
     try:
-        with steptie.tie_for(run_full) as tie:
-            r = scen.run_real(run_full, timeout_s=90)
+        r, tl, ti = steptie.run_with_tie(run_full, lambda: scen.run_real(run_full, timeout_s=90))
     finally:
         if tmp_csv:
             os.unlink(tmp_csv)
-    tl, ti = ([], []) if r.get("timeout") else (tie.lines, tie.impl)
     if r.get("step_i") is None or r.get("escaped") or r.get("timeout") or r.get("aborted"):
         return {"lines": tl, "impl": ti, "violations": [], "nontrivial": False, "stats": stats + ["no_full_run"],
                 "replay_case": full}
@@ -433,9 +431,7 @@ def eval_schedule(case):
         return res
     sched_mod.Schedule.charge_individually = wrapped
     try:
-        with steptie.tie_for(full) as tie:
-            r = scen.run_real(full, timeout_s=90)
-        tl, ti = ([], []) if r.get("timeout") else (tie.lines, tie.impl)
+        r, tl, ti = steptie.run_with_tie(full, lambda: scen.run_real(full, timeout_s=90))
     finally:
         sched_mod.Schedule.charge_individually = orig
     viol = []
